@@ -66,7 +66,7 @@ func (opts *CompileOptions) Compile(source string) (string, error) {
 				mode:   letExprMode,
 			}
 			sb := new(strings.Builder)
-			if err := writeExpressionMaybeParen(ctx, sb, stmt.X); err != nil {
+			if err := writeExpressionTight(ctx, sb, stmt.X); err != nil {
 				return "", err
 			}
 			scope[stmt.Name.Name] = sb.String()
@@ -665,7 +665,7 @@ func writeExpression(ctx *exprContext, sb *strings.Builder, x parser.Expr) error
 		default:
 			fmt.Fprintf(sb, "/* unhandled %s unary op */ ", x.Op)
 		}
-		if err := writeExpressionMaybeParen(ctx, sb, x.X); err != nil {
+		if err := writeExpressionTight(ctx, sb, x.X); err != nil {
 			return err
 		}
 	case *parser.BinaryExpr:
@@ -759,7 +759,7 @@ func writeExpression(ctx *exprContext, sb *strings.Builder, x parser.Expr) error
 		}
 		sb.WriteString(")")
 	case *parser.IndexExpr:
-		if err := writeExpressionMaybeParen(ctx, sb, x.X); err != nil {
+		if err := writeExpressionTight(ctx, sb, x.X); err != nil {
 			return err
 		}
 		sb.WriteString("[")
@@ -817,6 +817,31 @@ func writeExpressionMaybeParen(ctx *exprContext, sb *strings.Builder, x parser.E
 	}
 	sb.WriteString(")")
 	return nil
+}
+
+// writeExpressionTight writes an expression in a position that binds tighter than a unary sign:
+// the operand of a sign, the base of an index expression, or a let value (which is substituted
+// into such positions). It is writeExpressionMaybeParen, except that a signed expression is
+// parenthesized as well: "-" directly followed by "-" would start an SQL comment,
+// and -a[1] means -(a[1]).
+func writeExpressionTight(ctx *exprContext, sb *strings.Builder, x parser.Expr) error {
+	inner := x
+	for {
+		p, ok := inner.(*parser.ParenExpr)
+		if !ok {
+			break
+		}
+		inner = p.X
+	}
+	if _, ok := inner.(*parser.UnaryExpr); ok {
+		sb.WriteString("(")
+		if err := writeExpression(ctx, sb, inner); err != nil {
+			return err
+		}
+		sb.WriteString(")")
+		return nil
+	}
+	return writeExpressionMaybeParen(ctx, sb, x)
 }
 
 type functionRewrite struct {
